@@ -83,6 +83,8 @@ def fs_of(ex):
         g = GhostFS(ex.run)
         ex.run.ghost['fs'] = g
         ex.run.ghost['fs0'] = g.clone()
+        x = z3.String('fs_wf_x')
+        ex.run.axiom(z3.ForAll([x], z3.And(z3.Select(g.kind, x) >= 0, z3.Select(g.kind, x) <= 2)), 'A-fs')
     return g
 
 
